@@ -7,7 +7,7 @@ from e2e import common, fsck as fsckmod, run_e2e, runner, scenario
 from props.c03 import view_of
 
 EXPECTED = ["C07_crash_during_publish", "C07_crash_during_transfers", "C07_leftovers_ignored", "C07_no_leftovers",
-            "C07_partial_not_unmodified", "C07_partial_not_shortcut", "C07_stale_lock"]
+            "C07_partial_not_unmodified", "C07_partial_not_shortcut", "C07_stale_lock", "C07_crash_invariants", "C07_crash_rerun_converges", "C07_torso_not_accepted", "C07_crash_then_newer"]
 LEVEL = "proof"
 RULE = ("history = (optionally) a fault-free mirror of V1, then a run against V2 = evolve(V1) under a fault-plan class and a "
         "PRNG schedule; the run's filesystem-mutation sequence is cut at crash points k (audit hook fires before the k-th "
@@ -182,6 +182,8 @@ def run_one(chk, sseed, cls, npoints=6, chunk_level=False, from_empty=False, nex
             chk.count("crash_with_lock_file", 1 if lock_left else 0)
             chk.count("crash_with_leftover_temporaries", 1 if left_before else 0)
     finally:
+        run_e2e.flush_l2(chk, {"scenario_seed": sseed, "class": cls, "npoints": npoints, "chunk_level": chunk_level,
+                               "from_empty": from_empty, "next_version": next_version})
         for c in clones:
             c.destroy()
         w.destroy()
